@@ -36,7 +36,7 @@ structure RBatch (β : Type) where
 deriving Repr
 
 inductive RErr where
-  | valueError | keyError | runtimeError
+  | valueError | keyError | runtimeError | indexError
 deriving Repr, DecidableEq
 
 /-- `last_filename`, `curr_volume`, `slice_counter`, `volume_size` -/
@@ -184,5 +184,153 @@ def predict {β} (layout : List Nat) (world rank bs : Nat) (out : Nat → β) (z
   let bvs := Sampler.BVS.mk' vols bs
   reconstruct (lookupSize vols) zero RState.init
     (loaderBatches (fnameOfIndex (Sampler.volumes layout)) out bvs.iterate)
+
+/-! ## phase 2: the plumbing around the loop
+
+`_compute_resolution`, the per-batch processing as `reconstruct_volumes` performs it (resolution read
+from the batch's `reconstruction_size`), the data loader as an explicit component, `Engine.predict` /
+`build_batch_sampler` dispatch, and `write_output_to_h5`. -/
+
+/-- the `crop` argument: `None` / `""` (falsy), `"header"`, anything else -/
+inductive CropKey where
+  | none | header | other
+deriving Repr, DecidableEq
+
+/-- `_compute_resolution(key, reconstruction_size)`.  After collation `reconstruction_size` is a list over
+the dimensions `(x, y, z)` of tensors over the batch; the code keeps **element 0 of the batch** for each
+dimension and drops the last dimension: `[_[0] for _ in resolution][:-1]`.  `firstRecon` = the
+`reconstruction_size` tuple of the first batch element.  `center_crop` then reads `shape[-2], shape[-1]`
+(IndexError when fewer than two remain). -/
+def computeResolution (key : CropKey) (firstRecon : List Nat) : Except RErr (Option (Nat × Nat)) :=
+  match key with
+  | .none => .ok none
+  | .other => .error .valueError
+  | .header =>
+    let r := firstRecon.dropLast
+    if r.length < 2 then .error .indexError
+    else .ok (some (r.getD (r.length - 2) 0, r.getD (r.length - 1) 0))
+
+/-- what the loop computes for one batch: resolution from the batch, then `_process_output` -/
+def processBatch {α σ} (mul : α → σ → α) (key : CropKey) (imgs : List (Img α)) (scales : List σ)
+    (recons : List (List Nat)) : Except RErr (List (Img α)) :=
+  match computeResolution key (recons.headD []) with
+  | .error e => .error e
+  | .ok res =>
+    match processOutput mul res imgs scales with
+    | none => .error .valueError          -- `center_crop` guard
+    | some o => .ok o
+
+/-- the loop with the per-batch processing inside: the filename guard comes first, then the
+processing (which may raise), then the assembly step -/
+def reconstructP {β} (sizeOf : Nat → Option Nat) (zero : β) :
+    RState β → List (List Nat × Except RErr (List β)) → List (List β × Nat) × Option RErr
+  | _, [] => ([], none)
+  | s, (fn, .ok outs) :: rest =>
+    match rstep sizeOf zero s ⟨fn, outs⟩ with
+    | .error e => ([], some e)
+    | .ok (s', y) =>
+      let r := reconstructP sizeOf zero s' rest
+      (y.toList ++ r.1, r.2)
+  | _, (fn, .error e) :: _ => ([], some (if filenameOf fn = none then .valueError else e))
+
+/-- A data loader, as far as the loop is concerned: it turns the batch sampler's index batches into the
+sequence of batches delivered.  `InOrder` is the guarantee `torch.utils.data.DataLoader` documents for
+any `num_workers` / `prefetch_factor` (workers change *when* batches are ready, not their order); it
+is an explicit hypothesis of the end-to-end theorem and probed on the implementation. -/
+abbrev Loader := List (List Nat) → List (List Nat)
+def InOrder (deliver : Loader) : Prop := ∀ b, deliver b = b
+
+/-- `build_batch_sampler(dataset, batch_size, sampler_type, **kwargs)`: which sampler is built -/
+inductive SamplerChoice where
+  | concatDatasetBatchSampler            -- "random"
+  | batchVolumeOverSequential            -- "sequential"
+deriving Repr, DecidableEq
+
+/-- `samplerType = none` stands for a non-string / `None` argument -/
+def buildBatchSampler (samplerType : Option String) (isDatasetList : Bool) : Except RErr SamplerChoice :=
+  if samplerType = some "random" then
+    (if isDatasetList then .ok .concatDatasetBatchSampler else .error .valueError)
+  else if samplerType = some "sequential" then .ok .batchVolumeOverSequential
+  else .error .valueError
+
+/-- `Engine.predict(dataset, …, num_workers, batch_size, crop)`:
+`build_batch_sampler(dataset, batch_size=batch_size, sampler_type="sequential", limit_number_of_volumes=None)`
+→ `build_loader(dataset, batch_sampler, num_workers)` → `list(reconstruct_volumes(loader, add_target=False,
+crop=crop))`.  Dataset item `i` has model output `fwd i`, scaling factor `scale i` and header
+`reconstruction_size` `recon i`. -/
+def predictFull {α σ} (mul : α → σ → α) (layout : List Nat) (world rank bs : Nat) (key : CropKey)
+    (fwd : Nat → Img α) (scale : Nat → σ) (recon : Nat → List Nat) (deliver : Loader) :
+    List (List (Img α) × Nat) × Option RErr :=
+  match buildBatchSampler (some "sequential") false with
+  | .error e => ([], some e)
+  | .ok .concatDatasetBatchSampler => ([], some .valueError)
+  | .ok .batchVolumeOverSequential =>
+    let vols := Sampler.rankVols layout world rank 0          -- limit_number_of_volumes=None
+    let batches := deliver (Sampler.BVS.mk' vols bs).iterate
+    reconstructP (lookupSize vols) [] RState.init
+      (batches.map fun idxs =>
+        (idxs.map (fnameOfIndex (Sampler.volumes layout)),
+         processBatch mul key (idxs.map fwd) (idxs.map scale) (idxs.map recon)))
+
+/-! ### `write_output_to_h5` -/
+
+/-- an output directory: file name ↦ (dataset key, data), most recent first -/
+abbrev Dir (γ : Type) := List (Nat × String × γ)
+
+/-- `h5py.File(output_directory / filename, "w")` + `create_dataset(output_key, data=…)`: the file is
+truncated / replaced -/
+def writeFile {γ} (d : Dir γ) (name : Nat) (key : String) (data : γ) : Dir γ :=
+  (name, key, data) :: d.filter fun e => e.1 != name
+
+def readFile {γ} (d : Dir γ) (name : Nat) : Option (String × γ) :=
+  (d.find? fun e => e.1 == name).map (·.2)
+
+/-- `write_output_to_h5(output, output_directory, output_key)`: one file per tuple, named by the
+**basename** of the volume's filename (`base`), holding channel 0 of the volume
+(`chan0 = volume[:, 0, ...]`, as float32), in the order of `output`. -/
+def writeOutput {γ δ} (base : Nat → Nat) (chan0 : δ → γ) (key : String) (d : Dir γ)
+    (output : List (δ × Nat)) : Dir γ :=
+  output.foldl (fun d o => writeFile d (base o.2) key (chan0 o.1)) d
+
+/-- what the translator must report about `write_output_to_h5` -/
+def expectedWriterFacts : List String :=
+  ["if create_dirs_if_needed[output_directory.mkdir(exist_ok=True, parents=True)]",
+   "for idx, (volume, _, filename) in enumerate(output)",
+   "if isinstance(filename, pathlib.PosixPath)[filename=filename.name]",
+   "reconstruction=volume.numpy()[:, 0, ...].astype(np.float32)",
+   "if volume_processing_func[reconstruction=volume_processing_func(reconstruction)]",
+   "with h5py.File(output_directory / filename, 'w')[f.create_dataset(output_key, data=reconstruction)]",
+   "default output_key='reconstruction'"]
+
+/-- … about `Engine.predict`, `build_loader`, `build_batch_sampler`, `_compute_resolution` -/
+def expectedPredictFacts : List String :=
+  ["batch_sampler=self.build_batch_sampler(dataset, batch_size=batch_size, sampler_type='sequential', limit_number_of_volumes=None)",
+   "data_loader=self.build_loader(dataset, batch_sampler=batch_sampler, num_workers=num_workers)",
+   "output=list(self.reconstruct_volumes(data_loader, add_target=False, crop=crop))",
+   "return output"]
+
+def expectedLoaderFacts : List String :=
+  ["batch_sampler=batch_sampler", "batch_size=1", "dataset=dataset", "drop_last=False", "num_workers=num_workers",
+   "pin_memory=False", "sampler=None", "shuffle=False"]
+
+def expectedSamplerDispatch : List String :=
+  ["if sampler_type == 'random'",
+   "  if not isinstance(dataset, List) or any((not isinstance(_, Dataset) for _ in dataset))[raise ValueError]",
+   "  batch_sampler=ConcatDatasetBatchSampler(datasets=dataset, batch_size=batch_size)",
+   "elif sampler_type == 'sequential'",
+   "  sampler=direct.data.samplers.DistributedSequentialSampler(dataset, **kwargs)",
+   "  batch_sampler=direct.data.samplers.BatchVolumeSampler(sampler, batch_size=batch_size)",
+   "else[raise ValueError]",
+   "return batch_sampler"]
+
+def expectedResolutionFacts : List String :=
+  ["if key == 'header'",
+   "  resolution=[_.detach().cpu().numpy().tolist() for _ in reconstruction_size]",
+   "  resolution=[_[0] for _ in resolution][:-1]",
+   "  return resolution",
+   "elif not key",
+   "  return None",
+   "else[raise ValueError]",
+   "call resolution=_compute_resolution(key=crop, reconstruction_size=data.get('reconstruction_size', None))"]
 
 end DirectVerif.Recon
